@@ -190,6 +190,16 @@ func c37Fields(c *eng.Ctx, merge *ssa.Function) {
 					strings.HasPrefix(v1, "append(") && strings.HasSuffix(v1, ", p1."+f.Name()+")")
 				detail = v0 + " ; " + v1
 			}
+			// the same list built in one step: slices.Concat(lower.F, higher.F)
+			// (always a fresh slice; a bare append(lower.F, higher.F...) is NOT
+			// accepted — it may write into lower's spare capacity)
+			if len(stores) == 1 {
+				if call, isCall := eng.Unwrap(stores[0].Val).(*ssa.Call); isCall && strings.HasPrefix(eng.CalleeName(call), "slices.Concat") {
+					el := eng.VarargElems(&call.Call)
+					ok = len(el) == 2 && eng.Render(el[0]) == "p0."+f.Name() && eng.Render(el[1]) == "p1."+f.Name()
+					detail = eng.RenderCall(&call.Call)
+				}
+			}
 			c.Check("R2", key, merge.Pos(), ok, "list field is lower's entries followed by higher's", detail)
 		} else {
 			var fromHigher, fromLower *ssa.Store
